@@ -1,8 +1,74 @@
 import Driver.Util
-/-! Driver commands: Conn (stub — replaced by the real handler). -/
+import Slock.Model.Conn
+/-! Driver command for M-CONN (connection lifetimes, wills, reply routing):
+
+  conn <event>;<event>;…        one whole lifetime script per line; connections are numbered 0,1,… in `o` order
+events (arguments after the listed ones are descriptive and ignored):
+  o b|t            open a binary / text connection              → ok
+  i <c> <cid>      INIT with client id                          → i0 | i1 (id was free / already registered) | ign
+  w <c> <tok> 0|1  register a will (1 = the engine answers it in the submitting call)   → ok | ign
+  q <c> <tok>      a lock/unlock request whose reply is addressed through c's proxy       → ok | ign
+  d <tok>          the engine answers token tok                 → ><conn> | drop | lost+<close result>
+  x <c> c|e|s      connection ends (client EOF / protocol error / server side)
+                   → W[tok:res,…] (wills executed in order; res = q queued in the engine | ><conn> | drop)
+                     | crash | defer (blocked text connection: noticed at the next write) | noop | ign
+  t                one second of server time (nothing for this model)  → -
+-/
 namespace Driver
+open Slock.Conn
+
+def showDest : Dest → String
+  | .to d => s!">{d}"
+  | .dropped | .filtered | .parked _ => "drop"
+  | .lost _ => "lost"
+  | .loop => "crash"
+
+def showCloseRes (res : List (Nat × Option Dest)) (f : Option Fatal) : String :=
+  match f with
+  | some .crash => "crash"
+  | none =>
+    "W[" ++ ",".intercalate (res.map (fun p => s!"{p.1}:" ++ (match p.2 with | none => "q" | some d => showDest d))) ++ "]"
+
+def showConnOut : Out → String
+  | .opened _ => "ok"
+  | .ignored => "ign"
+  | .inited t => s!"i{t}"
+  | .ok => "ok"
+  | .routed d => showDest d
+  | .routedClosed d res f => showDest d ++ "+" ++ showCloseRes res f
+  | .closed res f => showCloseRes res f
+  | .deferred => "defer"
+  | .noop => "noop"
+
+def parseConnEvent (ts : List String) : Option (Option Event) :=
+  match ts with
+  | ["t"] => some none
+  | "o" :: "b" :: _ => some (some (.open .binary))
+  | "o" :: "t" :: _ => some (some (.open .text))
+  | "i" :: c :: cid :: _ => do pure (some (.init (← c.toNat?) (← cid.toNat?)))
+  | "w" :: c :: tok :: imm :: _ => do pure (some (.will (← c.toNat?) (← tok.toNat?) (imm == "1")))
+  | "q" :: c :: tok :: _ => do pure (some (.request (← c.toNat?) (← tok.toNat?)))
+  | "d" :: tok :: _ => do pure (some (.deliver (← tok.toNat?)))
+  | "x" :: c :: cause :: _ => do
+    let k ← (match cause with | "c" => some Cause.client | "e" => some Cause.protoErr | "s" => some Cause.server | _ => none)
+    pure (some (.close (← c.toNat?) k))
+  | _ => none
+
+def runConn (s : Server) : List String → List String → Option (List String)
+  | [], acc => some acc.reverse
+  | ev :: evs, acc =>
+    match parseConnEvent ((ev.splitOn " ").filter (· ≠ "")) with
+    | none => none
+    | some none => runConn s evs ("-" :: acc)
+    | some (some e) =>
+      let r := step s e
+      runConn r.1 evs (showConnOut r.2 :: acc)
 
 def handleConn : List String → Option String
+  | "conn" :: rest => do
+    let evs := ((" ".intercalate rest).splitOn ";").filter (fun e => ((e.splitOn " ").filter (· ≠ "")) ≠ [])
+    let outs ← runConn {} evs []
+    pure (";".intercalate outs)
   | _ => none
 
 end Driver
